@@ -280,8 +280,9 @@ def _update_local_references(rules):
         counter.previsit(node)
         if node.is_reference and counter.is_bound(node.name):
             node.is_local = True
-        if isinstance(node, ex.PythonExpression):
-            node.local_names = sorted(x for x in node.names() if counter.is_bound(x))
+        names = node.mentioned_names()
+        if names:
+            node.local_names = sorted(x for x in names if counter.is_visible(x))
 
     visit(rules, previsit, counter.postvisit)
 
